@@ -10,24 +10,30 @@ CONSTANTS Vars,       \* variable names used (subset of AllVars)
           BoundKinds, \* block kinds opened with a bound variable (loop variable / parameter) from Vars
           MaxLen,     \* total number of statements (builder steps), closes included
           MaxDepth,
-          CheckDev    \* deviations under which the laws are checked ({} = the ideal semantics)
+          CheckDev,   \* deviations under which the laws are checked ({} = the ideal semantics)
+          FreshOnly   \* TRUE: a variable is never assigned inside a block nested in a block that declares or
+                      \* binds it (programs that only declare fresh variables or shadow globals: used for C18)
 
-VARIABLES prog, stack, phase
-vars == <<prog, stack, phase>>
+VARIABLES prog, stack, decl, phase
+vars == <<prog, stack, decl, phase>>
 
-Init == prog = <<>> /\ stack = <<>> /\ phase = "build"
+(* decl[i] = variables assigned or bound directly in the i-th open block (decl[1]: the top level) *)
+Init == prog = <<>> /\ stack = <<>> /\ decl = <<{}>> /\ phase = "build"
 
 Room(extra) == Len(prog) + extra + Len(stack) <= MaxLen     \* every open block still needs its close
 
 LastOp == IF prog = <<>> THEN "none" ELSE prog[Len(prog)].op
 
 AddAsg == /\ phase = "build" /\ Room(2)                        \* an assignment is only observable before a read
-          /\ \E v \in Vars, f \in Flags : prog' = Append(prog, Asg(v, f))
+          /\ \E v \in Vars, f \in Flags :
+               /\ (FreshOnly => \A i \in 2..(Len(decl) - 1) : v \notin decl[i])
+               /\ prog' = Append(prog, Asg(v, f))
+               /\ decl' = [decl EXCEPT ![Len(decl)] = @ \cup {v}]
           /\ UNCHANGED <<stack, phase>>
 
 AddRead == /\ phase = "build" /\ Room(1)
            /\ \E v \in Vars : prog' = Append(prog, Read(v))
-           /\ UNCHANGED <<stack, phase>>
+           /\ UNCHANGED <<stack, decl, phase>>
 
 CanOpen(k) ==
   /\ ("function" \in SeqSet(stack) => k \in FlowKinds)
@@ -35,12 +41,15 @@ CanOpen(k) ==
 
 AddOpen == /\ phase = "build" /\ Len(stack) < MaxDepth /\ Room(3)   \* open + a read + close
            /\ \/ \E k \in OpenKinds : CanOpen(k) /\ prog' = Append(prog, Open(k, "-")) /\ stack' = Append(stack, k)
+                                       /\ decl' = Append(decl, {})
               \/ \E k \in BoundKinds, v \in Vars : CanOpen(k) /\ prog' = Append(prog, Open(k, v)) /\ stack' = Append(stack, k)
+                                                    /\ decl' = Append(decl, {v})
            /\ UNCHANGED phase
 
 AddClose == /\ phase = "build" /\ stack # <<>> /\ LastOp # "open"
             /\ prog' = Append(prog, Close)
             /\ stack' = SubSeq(stack, 1, Len(stack) - 1)
+            /\ decl' = SubSeq(decl, 1, Len(decl) - 1)
             /\ UNCHANGED phase
 
 (* canonical complete programs: the last statement that is not a close is a read *)
@@ -49,7 +58,7 @@ LastNonClose(p, i) == IF i = 0 THEN "none" ELSE IF p[i].op = "close" THEN LastNo
 
 Finish == /\ phase = "build" /\ stack = <<>> /\ LastNonClose(prog, Len(prog)) = "read"
           /\ phase' = "done"
-          /\ UNCHANGED <<prog, stack>>
+          /\ UNCHANGED <<prog, stack, decl>>
 
 Next == AddAsg \/ AddRead \/ AddOpen \/ AddClose \/ Finish
 Spec == Init /\ [][Next]_vars
@@ -59,6 +68,8 @@ Done == phase = "done"
 (* the property's sentences hold of the semantics the vectors are computed with *)
 LawsHold == Done => (Laws(LogOf(prog, CheckDev)) /\ Laws(Run(prog, CheckDev, "iter").log))
 LawWellFormed == Done => WellFormed(prog)
+(* on fresh-declaration programs the pinned tree's assignment defects (C16) cannot show *)
+NoDevs == (Done /\ FreshOnly) => DevMap(prog) = <<>>
 
 Emit == Done =>
   LET ideal == Ideal(prog) IN
